@@ -12,7 +12,7 @@ func register(name string, fn func(args []string) int) { commands[name] = fn }
 
 func main() {
 	if len(os.Args) < 2 {
-		fmt.Fprintln(os.Stderr, "usage: worker <command> [args...]")
+		fmt.Fprintln(diag, "usage: worker <command> [args...]")
 		os.Exit(2)
 	}
 	// A "-test.x" style argument may follow (used to put the library in testing mode);
